@@ -18,7 +18,7 @@ PROPS = {
         "level_note": "trusted: Verus+z3, extraction rules (R2 R3 R9 R13 R15 R16 R19b), prelude/iomodel.rs "
                       "(mem::take on &mut &mut [T], io::Error::new, io::{Error, ErrorKind, SeekFrom} as external types), "
                       "vf_array_mut_ref for `out_block.try_into().unwrap()`, the AVX-512 xof_many kernel assumed (C05)",
-        "units": {"quick": [v("xof"), v("tree_lemmas")], "thorough": [v("xof", config="C", vacuity=False), k("output_reader_seek")]},
+        "units": {"quick": [v("xof"), v("tree_lemmas")], "thorough": [v("xof", config="C", vacuity=False), k("output_reader_seek"), s("C03")]},
         "cone": [r"crate::OutputReader::", r"crate::platform::Platform::xof_many", r"crate::platform::Platform::compress_xof",
                  r"crate::Output::root_output_block", r"crate::hazmat::merge_subtrees_root_xof",
                  r"crate::hazmat::merge_subtrees_inner", r"crate::hazmat::Mode::", r"crate::parent_node_output",
